@@ -81,7 +81,7 @@ def expected_order(keys, atomids):
                                     for pos, key in enumerate(keys))]
 
 
-def check(keys, atomids, chosen, cm, acc, sample=False):
+def check(keys, atomids, chosen, cm, acc, sample=False, phase2=None):
     from vermouth.gmx.itp import write_molecule_itp
     case = {'keys': list(keys), 'atomids': atomids, 'interactions': list(chosen), 'charge_mass': cm}
     mol = build(keys, atomids, chosen, cm)
@@ -153,6 +153,45 @@ def check(keys, atomids, chosen, cm, acc, sample=False):
             problems.append((sig, 'read back %r, in memory %r' % (extra, missing)))
     for sig, desc in problems[:1]:
         acc.violation(sig, desc, case)
+    if phase2 is None:
+        phase2 = len(chosen) >= 1
+    if problems or phase2 is False:
+        return
+    # ---- history: the SAME molecule object is written again after its atom ids were changed in place
+    new_ids = {}
+    if atomids is None:
+        new_ids = {key: len(keys) - pos for pos, key in enumerate(keys)}
+    else:
+        present = [a for a in atomids if a is not None]
+        flipped = sorted(present, reverse=True)
+        mapping_ids = dict(zip(sorted(present), flipped))
+        new_ids = {key: (mapping_ids[atomids[pos]] if atomids[pos] is not None else None) for pos, key in enumerate(keys)}
+    for key, value in new_ids.items():
+        if value is None:
+            mol.nodes[key].pop('atomid', None)
+        else:
+            mol.nodes[key]['atomid'] = value
+    handle = io.StringIO()
+    try:
+        write_molecule_itp(mol, handle)
+        parsed2 = readers.read_itp(handle.getvalue())
+    except Exception as err:   # pylint: disable=broad-except
+        acc.violation('itp:rewrite-exception', 'second write of the same molecule raised %r' % (err,), dict(case, phase=2))
+        return
+    ids2 = [new_ids[k] for k in keys]
+    order2 = expected_order(keys, ids2 if any(v is not None for v in ids2) else None)
+    got_names = [a['atomname'] for a in parsed2['atoms']]
+    want_names = [str(mol.nodes[k]['atomname']) for k in order2]
+    acc.transitions += 1
+    if got_names != want_names:
+        acc.violation('itp:stale-order-on-rewrite', 'after the atom ids were changed in place the same molecule is written with atoms %r, '
+                      'atom-id order is %r' % (got_names, want_names), dict(case, phase=2))
+        return
+    index_to_key = {i: k for i, k in enumerate(order2, 1)}
+    got2 = sorted((sec, guard, tuple(index_to_key.get(a) for a in ats), params) for sec, guard, ats, params in parsed2['interactions'])
+    if got2 != sorted(want):
+        acc.violation('itp:stale-indices-on-rewrite', 'after the atom ids were changed in place the interactions are written on other atoms',
+                      dict(case, phase=2))
 
 
 def work(task):
